@@ -27,6 +27,7 @@ func init() {
 			{Name: "digest size test is >= with off-by-one slack", File: "pkg/gossip/protocol.go", Old: "\t\tif buf.Len() > maxPacketSize {\n\t\t\tbreak\n\t\t}\n\t\tbufLen = buf.Len()\n\t}\n\n\treturn buf.Bytes()[:bufLen], nil\n}\n\nfunc encodeDelta", New: "\t\tif buf.Len() > maxPacketSize+1 {\n\t\t\tbreak\n\t\t}\n\t\tbufLen = buf.Len()\n\t}\n\n\treturn buf.Bytes()[:bufLen], nil\n}\n\nfunc encodeDelta", Rule: "C13.R1"},
 			{Name: "decoder preallocates from the announced count", File: "pkg/gossip/protocol.go", Old: "\t\tdeltaEntry := deltaEntry{\n\t\t\tID:   entryHeader.NodeID,\n\t\t\tAddr: entryHeader.Addr,\n\t\t}\n", New: "\t\tdeltaEntry := deltaEntry{\n\t\t\tID:      entryHeader.NodeID,\n\t\t\tAddr:    entryHeader.Addr,\n\t\t\tEntries: make([]Entry, 0, entryHeader.Entries),\n\t\t}\n", Rule: "C13.R3"},
 			{Name: "decodeDelta errors when fewer entries than announced", File: "pkg/gossip/protocol.go", Old: "\t\t\t\tif errors.Is(err, io.EOF) {\n\t\t\t\t\tbreak\n\t\t\t\t}\n\t\t\t\treturn deltaHeader{}, nil, fmt.Errorf(\"decode: %w\", err)\n\t\t\t}\n\n\t\t\tdeltaEntry.Entries", New: "\t\t\t\treturn deltaHeader{}, nil, fmt.Errorf(\"decode: %w\", err)\n\t\t\t}\n\n\t\t\tdeltaEntry.Entries", Rule: "C13.R2"},
+			{Name: "Delta answers for nodes it does not know", File: "pkg/gossip/state.go", Old: "\t\tif _, ok := s.nodes[entry.ID]; !ok {\n\t\t\t// We have no state for this member.\n\t\t\tcontinue\n\t\t}\n", New: "", Rule: "C13.R6"},
 			{Name: "benign: range loop with explicit index", Benign: true, File: "pkg/gossip/protocol.go", Old: "\tfor _, entry := range digest {\n\t\tif err := encoder.Encode(&entry); err != nil {\n\t\t\treturn nil, fmt.Errorf(\"encode: %w\", err)\n\t\t}\n\n\t\tif buf.Len() > maxPacketSize {\n\t\t\tbreak\n\t\t}\n\t\tbufLen = buf.Len()\n\t}\n\n\treturn buf.Bytes()[:bufLen], nil\n}\n\nfunc encodeDelta", New: "\tfor i := 0; i < len(digest); i++ {\n\t\tif err := encoder.Encode(&digest[i]); err != nil {\n\t\t\treturn nil, fmt.Errorf(\"encode: %w\", err)\n\t\t}\n\n\t\tif buf.Len() > maxPacketSize {\n\t\t\tbreak\n\t\t}\n\t\tbufLen = buf.Len()\n\t}\n\n\treturn buf.Bytes()[:bufLen], nil\n}\n\nfunc encodeDelta"},
 		},
 	})
@@ -36,6 +37,7 @@ func runC13(c *Ctx) {
 	c13Encode(c, "C13.R1", "C13.R2")
 	c13Decode(c, "C13.R2")
 	c13R3(c)
+	c13NodesDeref(c)
 	c13R4(c)
 	if g := newGossipAnchors(c.P); g.ok {
 		gsR1(c, g, "C13.R5")
@@ -894,5 +896,109 @@ func c13R4(c *Ctx) {
 				c.check(okDecode, "C13.R4", fmt.Sprintf("%s/back-edge[%d]", fnName(fn), n), pb.Instrs[len(pb.Instrs)-1].Pos(), "the loop repeats only after a successful Decode (consumes input)", "a decode loop can repeat without having decoded anything: unbounded loop on hostile input; facts "+factStrings(facts))
 			}
 		}
+	}
+}
+
+// c13NodesDeref: a `s.nodes[k]` whose result is dereferenced needs k to be
+// known present: the local id, a key found by a checked lookup, a key ranged
+// from the table itself, or a parameter for which every call site qualifies.
+func c13NodesDeref(c *Ctx) {
+	p := c.P
+	g := newGossipAnchors(p)
+	if !g.ok {
+		return
+	}
+	c.floor("C13.R6", 4)
+	var present func(key ssa.Value, at ssa.Instruction, depth int) (bool, string)
+	present = func(key ssa.Value, at ssa.Instruction, depth int) (bool, string) {
+		if _, ok := loadedField(key, g.localIDF); ok {
+			return true, "the local id (always present)"
+		}
+		fs := computeFacts(at.Parent())
+		facts := fs.At(at.Block())
+		if anyFact(facts, func(f Fact) bool {
+			ex, ok := f.V.(*ssa.Extract)
+			if !ok || ex.Index != 1 || !f.T {
+				return false
+			}
+			k, _, ok := g.nodesLookup(ex.Tuple)
+			return ok && sameValue(k, key)
+		}) {
+			return true, "checked lookup of the same key succeeded"
+		}
+		// stored under this key earlier on every path (insert-then-read)
+		stored := false
+		allInstrs(at.Parent(), func(i ssa.Instruction) {
+			if mu, ok := i.(*ssa.MapUpdate); ok {
+				if _, ok := loadedField(mu.Map, g.nodesF); ok && sameValue(mu.Key, key) && dominatesInstr(mu, at) {
+					stored = true
+				}
+			}
+		})
+		if stored {
+			return true, "inserted under this key just before"
+		}
+		if ex, ok := strip(key).(*ssa.Extract); ok && ex.Index == 1 {
+			if nx, ok := ex.Tuple.(*ssa.Next); ok {
+				if rg, ok := nx.Iter.(*ssa.Range); ok {
+					if _, ok := loadedField(rg.X, g.nodesF); ok {
+						return true, "a key ranged from the table"
+					}
+				}
+			}
+		}
+		if pv, ok := strip(key).(*ssa.Parameter); ok && depth < 3 {
+			fn := pv.Parent()
+			idx := -1
+			for k, pp := range fn.Params {
+				if pp == pv {
+					idx = k
+				}
+			}
+			n := 0
+			for _, e := range p.callersOf(fn) {
+				cf := e.Caller.Func
+				if cf == nil || isTestFile(p.Fset, cf.Pos()) || e.Site == nil || !inModule(cf) {
+					continue
+				}
+				args := e.Site.Common().Args
+				if idx >= len(args) {
+					continue
+				}
+				n++
+				if ok, why := present(args[idx], e.Site, depth+1); !ok {
+					return false, "called from " + fnName(cf) + " at " + p.pos(e.Pos()) + " with a key that is not known present (" + why + ")"
+				}
+			}
+			if n > 0 {
+				return true, "every call site passes a present key"
+			}
+		}
+		return false, "key " + path(key) + " is not known to be present; facts " + factStrings(facts)
+	}
+	for _, fn := range g.stateFuncs() {
+		allInstrs(fn, func(i ssa.Instruction) {
+			lk, ok := i.(*ssa.Lookup)
+			if !ok || lk.CommaOk {
+				return
+			}
+			if _, ok := loadedField(lk.X, g.nodesF); !ok {
+				return
+			}
+			// dereferenced?
+			deref := false
+			for _, r := range *lk.Referrers() {
+				switch r.(type) {
+				case *ssa.FieldAddr, *ssa.Call:
+					deref = true
+				}
+			}
+			if !deref {
+				return
+			}
+			ok2, why := present(lk.Index, lk, 0)
+			c.check(ok2, "C13.R6", fnName(fn)+"/nodes-deref["+posRe.ReplaceAllString(path(lk.Index), "")+"]", lk.Pos(), "dereferenced table entry is known present: "+why,
+				"s.nodes[k] is dereferenced although k may be absent (nil pointer dereference): "+why+"; a forged or stale digest naming an unknown node crashes the handler")
+		})
 	}
 }
